@@ -126,6 +126,21 @@ def make_cases(ctx):
                     s = rng.choice(["%d %s %02d" % (d2, mn, yy), "%s %d, %02d" % (mn, d2, yy), "%02d/%02d/%02d" % (m, d2, yy)])
                     add("yy", pref, base, s, m=m, d=d2, yy=yy)
     gap_cases()
+    # a clock time that carries its own zone, under every TIMEZONE: the string's zone decides on which side of the
+    # reference the candidate lies (zero-offset zones included), TIMEZONE only re-expresses the result
+    SZ = [(" UTC", 0), (" GMT", 0), ("Z", 0), (" +00:00", 0), (" EST", -18000), (" +02:00", 7200), (" -03:30", -12600),
+          (" +0530", 19800), (" -1000", -36000), (" UTC+9", 32400)]
+    for _ in range(500 if ctx.quick() else 6000):
+        by = rng.choice([2001, 2015, 2021, 2024, 2036])
+        bm, bd = rng.randint(1, 12), rng.randint(4, 25)
+        base = (by, bm, bd) + rng.choice([(0, 0, 0, 0), (6, 0, 0, 0), (12, 0, 0, 0), (23, 59, 59, 0), (rng.randint(0, 23), rng.randint(0, 59), 0, 0)])
+        h, mi = rng.choice([(0, 0), (23, 59), (12, 0), (base[3], base[4]), (rng.randint(0, 23), rng.randint(0, 59)), (rng.randint(0, 23), rng.randint(0, 59))])
+        sfx, soff = rng.choice(SZ)
+        zone = rng.choice(ZONES)
+        import pytz
+        zone = (zone[0], int(pytz.timezone(zone[0]).utcoffset(datetime.datetime(by, bm, bd, 12)).total_seconds()))
+        add("timez", rng.choice(PREFS), base, "%02d:%02d%s" % (h, mi, sfx), t=(h, mi, 0, 0), zone=zone)
+        cases[-1]["soff"] = soff
     return cases
 
 
@@ -174,7 +189,7 @@ def run(ctx):
     records, nabs = [], 0
     for i, (c, r) in enumerate(zip(cases, results)):
         records.append({"kind": "c09", "tid": i, "form": c["form"], "pref": c["pref"], "base": c["base"], "w": c["w"],
-                        "t": c["t"], "m": c["m"], "d": c["d"], "yy": c["yy"], "off": c["off"], "out": r["out"], "exc": r["exc"]})
+                        "t": c["t"], "m": c["m"], "d": c["d"], "yy": c["yy"], "off": c["off"], "soff": c.get("soff", 0), "out": r["out"], "exc": r["exc"]})
         ar = absfam.abs_records(i, r)
         nabs += len(ar)
         records.extend(ar)
